@@ -18,6 +18,7 @@ func init() {
 		NotDecided: "TLS, header canonicalisation and path cleaning inside net/http, behaviour of the upstream stores.",
 		Rules: []rule{
 			{"C15.auth-dominates", "every dispatch/store call in ServeHTTP lies behind the exact Authorization comparison (or no value configured)", 6, c15Auth},
+			{"C15.ctor-verifies", "the verifying constructor the PUT handler relies on returns a chunk only via skipVerify or hash-computed-and-equal (shared with C03)", 3, c03CtorVerifies},
 			{"C15.readonly", "writes and body reads only where the writable switch was found set (inline or through a predicate wrapper)", 4, c15Readonly},
 			{"C15.flag-defaults", "servers are read-only unless --writeable is given", 2, func(c *Ctx) {
 				c.flagDefaults(map[string]flagSpec{"writeable": {"false", ".writable", 2}})
